@@ -1,6 +1,6 @@
 import json,re
 r5=json.load(open('/verif/seeded/ROUND5_FIRST_ATTEMPT.json'))
-closed=json.load(open('/root/work/notes/r5_closed.json'))
+closed=json.load(open('/verif/tools/protocol/r5_closed.json'))
 rows=[]
 for p in range(1,21):
     for n in (9,10):
